@@ -221,6 +221,16 @@ def run_case(case, rec, mon=None):
             coeff = float(rng.choice([0.97, 0.0, 1.0, 0.5, -0.9, float(rng.uniform(-1.5, 1.5))]))
             two_d = rng.random() < 0.1
             x = _signal(rng, n, dtype, two_d)
+            if dtype in INTS and n and not two_d and j % 3 == 1 and abs(coeff) <= 0.99:
+                # the extreme values of the integer type are samples like any other: the recording starts on the type's minimum, and
+                # the next sample is such that the exact result stays in range
+                lo, hi = np.iinfo(dtype).min, np.iinfo(dtype).max
+                x[0] = lo
+                if n > 1:
+                    x[1] = int(round(coeff * lo))
+                if n > 4:
+                    x[2], x[3], x[4] = 0, hi, int(round(coeff * hi))  # ... and the maximum, reached exactly as well
+                rec.count("integer_signals_starting_on_the_type_minimum")
             mode = int(rng.integers(4))
             p = P.Preemphasize(coeff)
             if rng.random() < 0.1:
@@ -275,6 +285,10 @@ def run_case(case, rec, mon=None):
             coeff = float(rng.choice([1.0, 0.0, 0.5, float(np.exp(rng.uniform(-3, 3)))]))
             s = int(rng.integers(0, 2 ** 31 - 1))
             x = _signal(rng, n, dtype)
+            if dtype in INTS and n and coeff == 0.0:
+                x[int(rng.integers(n))] = np.iinfo(dtype).min  # (coeff 0 is the identity on every representable sample)
+                x[int(rng.integers(n))] = np.iinfo(dtype).max
+                rec.count("dither_identity_on_integer_extremes")
             x.setflags(write=False)
             d = P.Dither(coeff)
             if rng.random() < 0.1:
